@@ -69,6 +69,18 @@ type IRtpUnpackerProtocol interface {
 //		  假如sps和pps是一个stapA包，则合并结果为一个AvPacket。
 type OnAvPacket func(pkt base.AvPacket)
 
+// rtpTimestamp2Ms 将rtp包头中的时间戳经过clockrate换算为毫秒
+//
+// 注意，clockRate不一定是1000的整数倍（比如44100，22050，11025），所以必须先乘后除，
+// 不能使用`timestamp / (clockRate/1000)`，否则换算结果会随时间线性漂移
+func rtpTimestamp2Ms(timestamp uint32, clockRate int) int64 {
+	if clockRate <= 0 {
+		// 无效的clockRate（比如sdp中填了0），避免除0
+		return int64(timestamp)
+	}
+	return int64(timestamp) * 1000 / int64(clockRate)
+}
+
 // DefaultRtpUnpackerFactory 目前支持AVC，HEVC和AAC MPEG4-GENERIC，业务方也可以自己实现IRtpUnpackerProtocol，甚至是IRtpUnpackContainer
 func DefaultRtpUnpackerFactory(payloadType base.AvPacketPt, clockRate int, maxSize int, onAvPacket OnAvPacket) IRtpUnpacker {
 	nazalog.Debugf("DefaultRtpUnpackerFactory. type=%d, clockRate=%d, maxSize=%d", payloadType, clockRate, maxSize)
